@@ -1,4 +1,5 @@
 import Glom.Model.C20
+import Glom.Model.C20Reentry
 /-
   C20 — reference: what "behaves exactly as when run alone" means, the observation, the
   checker, and the well-formedness of the extracted facts.
@@ -83,8 +84,9 @@ def resetsCover (keys : List String) (resets : List (String × String)) : Bool :
   resets.contains ("NO_PYFRAME", "pop") &&
   resets.any (fun r => r.1 == "Path" && (r.2 == "call:list(scope[Path])" || r.2 == "[]"))
 
-/-- the resets as the model takes them: the keys only -/
-def resetKeys (resets : List (String × String)) : List String := resets.map (·.1)
+/-- the resets as the model of re-entry (`Glom/Model/C20Reentry.lean`) takes them -/
+def resetsOf (resets : List (String × String)) : Re.Resets :=
+  ⟨resets.contains ("CHILD_ERRORS", "[]"), resets.contains ("NO_PYFRAME", "pop")⟩
 
 def Facts.WF (f : Facts) : Bool :=
   f.maxCache ≥ 1 &&
